@@ -118,7 +118,7 @@ func genGels(g *vlib.G) {
 	}
 	scls := []scl{{"1", 0, 0}}
 	extreme := []scl{{"Ahuge", 1000, 1000}, {"Atiny", -1000, -1000}, {"Bhuge", 0, 1000}, {"Btiny", 0, -1000}, {"Ahuge-B1", 1000, 0}, {"Atiny-B1", -1000, 0}}
-	for _, trans := range transes {
+	for _, trans := range allTrans {
 		for m := 0; m <= N; m++ {
 			for n := 0; n <= N; n++ {
 				for _, nrhs := range []int{0, 1, 3} {
@@ -134,6 +134,9 @@ func genGels(g *vlib.G) {
 							for _, nb := range nbs {
 								if sc.name != "1" && nb != nbs[0] {
 									continue
+								}
+								if trans == blas.ConjTrans && !((f.name == "dd" || f.name == "had") && nb == nbs[0]) {
+									continue // ConjTrans is documented as a synonym of Trans: two families, one block size
 								}
 								trans, m, n, nrhs, f, sc, nb := trans, m, n, nrhs, f, sc, nb
 								g.Case(fmt.Sprintf("Dgels trans=%s m=%d n=%d nrhs=%d fam=%s scale=%s nb=%d", transName(trans), m, n, nrhs, f.name, sc.name, nb), func(t *vlib.T) {
